@@ -69,19 +69,18 @@ def random_case(rng):
             a = dict(id=nid * rng.choice([1, 1, 7]) + rng.randrange(10 ** 6) * 1000, created=rng.choice(times))
             nid += 1
         a.update(event=rng.randrange(1, 5), route=rng.randrange(1, 4), target=rng.randrange(1, 3), attempt=rng.randrange(0, 6),
-                 status=rng.choice([0, 200, 204, 500, 503]), outcome=rng.randrange(0, 4))
+                 status=rng.choice([0, 200, 204, 500, 503, -1, -7]), outcome=rng.randrange(0, 4))
         ops.append({"rec": a})
         if rng.random() < 0.4:
             ops.append(random_query(rng, times))
     for _ in range(rng.randrange(3, 9)):
         ops.append(random_query(rng, times))
-    # explicit ids must be distinct (the id is the primary key of the SQLite table)
-    seen = set()
-    for o in ops:
-        if "rec" in o and o["rec"]["id"]:
-            while o["rec"]["id"] in seen:
-                o["rec"]["id"] += 1
-            seen.add(o["rec"]["id"])
+    # the id is the key of the log: now and then an explicit id is presented a second time (refused, nothing changes)
+    recs = [o["rec"] for o in ops if "rec" in o and o["rec"]["id"]]
+    for _ in range(rng.choice([0, 0, 1, 2])):
+        if len(recs) >= 2:
+            a, b = rng.sample(recs, 2)
+            b["id"] = a["id"]
     return ops
 
 
@@ -114,7 +113,7 @@ def run(ctx, info, rng):
     for s in shards:
         b = ["From Coq Require Import ZArith NArith List.\nFrom HK Require Import Model.Attempts.\nImport ListNotations.\nOpen Scope Z_scope."]
         for ci in s:
-            b.append("Definition al%d := Eval vm_compute in map enc_result (arun [] [%s]).\nRedirect \"c13al%d\" Print al%d." % (
+            b.append("Definition al%d := Eval vm_compute in arun [] [%s].\nRedirect \"c13al%d\" Print al%d." % (
                 ci, ";\n ".join(coq_op(o) for o in cases[ci]), ci, ci))
         bodies.append("\n".join(b) + "\n")
     results = C.coq_eval_shards(ctx, "c13attcases", bodies)
@@ -137,7 +136,17 @@ def run(ctx, info, rng):
             "attempt_log_longest_log": max(sum(o["gen"][1] if "gen" in o else (1 if "rec" in o else 0) for o in c) for c in cases),
             "attempt_log_model_failures": model_fail[:2], "attempt_log_mismatches": 0}
     for ci, c in enumerate(cases):
-        queries = [o["list"] for o in c if "list" in o]
+        # what each output row stands for: a listing, or a refused RecordAttempt (an explicit id presented again)
+        queries, seen_ids = [], set()
+        for o in c:
+            if "list" in o:
+                queries.append(o["list"])
+            elif "rec" in o and o["rec"]["id"]:
+                if o["rec"]["id"] in seen_ids:
+                    queries.append({"refused_record": o["rec"]})
+                seen_ids.add(o["rec"]["id"])
+            elif "gen" in o:
+                seen_ids.update(range(o["gen"][0] + 1, o["gen"][0] + o["gen"][1] + 1))
         for co in impl[ci]:
             if co.get("err"):
                 C.report(ctx, "attempt-log-error:%s" % co["backend"], "the %s store answered an attempt-log operation with an error: %s" % (co["backend"], co["err"]),
@@ -146,9 +155,15 @@ def run(ctx, info, rng):
             if ci not in model:
                 continue
             if len(co["results"]) != len(model[ci]):
-                raise RuntimeError("attempt-log: %d listings from the harness, %d from the model" % (len(co["results"]), len(model[ci])))
+                C.report(ctx, "attempt-log:%s:refusals" % co["backend"],
+                         "the %s store produced %d observable rows (listings + refused records), the attempt log of the Store contract %d: a RecordAttempt was "
+                         "refused by one and accepted by the other (store refusals: %s)" % (co["backend"], len(co["results"]), len(model[ci]), (co.get("refusals") or [])[:3]),
+                         {"kind": "history", "case": {"ops": c if len(c) < 120 else c[:40]}, "observed": [r[:14] for r in co["results"][:30]],
+                          "expected": [r[:14] for r in model[ci][:30]], "how_to_replay": "./check C13 --replay <this file>"})
+                continue
             for k, (got, want) in enumerate(zip(co["results"], model[ci])):
                 frag["attempt_log_listings"] += 1
+                frag["attempt_log_refusals"] = frag.get("attempt_log_refusals", 0) + (1 if want == [-1] else 0)
                 frag["attempt_log_rows_compared"] += len(want) // 7
                 frag["attempt_log_nonempty_listings"] += 1 if want else 0
                 if got != want:
@@ -157,6 +172,14 @@ def run(ctx, info, rng):
                     wr = [want[i:i + 7] for i in range(0, len(want), 7)]
                     first = next((i for i in range(min(len(gr), len(wr))) if gr[i] != wr[i]), min(len(gr), len(wr)))
                     recorded = sum(o["gen"][1] if "gen" in o else (1 if "rec" in o else 0) for o in c)
+                    if want == [-1] or got == [-1]:
+                        C.report(ctx, "attempt-log:%s:duplicate-id" % co["backend"],
+                                 "the %s store %s where the attempt log of the Store contract %s (output row %d: %s)" % (
+                                     co["backend"], "refused a RecordAttempt" if got == [-1] else "did not refuse at this point",
+                                     "refuses the attempt (its id is already recorded)" if want == [-1] else "does not", k, queries[k] if k < len(queries) else "?"),
+                                 {"kind": "history", "case": {"ops": c if len(c) < 120 else c[:40], "row_index": k}, "observed": got[:21], "expected": want[:21],
+                                  "how_to_replay": "./check C13 --replay <this file>"})
+                        break
                     C.report(ctx, "attempt-log:%s:%s" % (co["backend"], "fewer" if len(gr) < len(wr) else "more" if len(gr) > len(wr) else "rows"),
                              "ListAttempts(%s) on the %s store lists %d attempts, the attempt log of the Store contract lists %d (first difference at row %d: "
                              "store %s, contract %s); %d attempts recorded in this history" % (
